@@ -50,6 +50,46 @@ def check(an: Analysis) -> None:
             named = [p.arg for p in ta.args + ta.kwonlyargs]
             if named:
                 ob.fail(f, c, f"the caller's **{kwa} are forwarded into {t.short} next to its named parameter(s) {named}: a caller keyword of that name collides (TypeError: multiple values) or is captured, and the wrapped function never sees it")
+    # whoever takes the caller's **kwargs can name no other parameter: a caller keyword of that name (self, function, cls ...) collides
+    n_forwarders = 0
+    for f in prog.scan_functions():
+        a_ = f.node.args
+        if not (a_.vararg and a_.kwarg):
+            continue
+        n_forwarders += 1
+        named = [p_.arg for p_ in a_.args + a_.kwonlyargs]
+        ob.inst(f, None, "takes *args/**kwargs of a caller")
+        if named:
+            ob.fail(f, None, f"`{f.name}` takes the caller's **{a_.kwarg.arg} next to the named parameter(s) {named}: calling the wrapped function with a keyword of that name raises TypeError (multiple values) instead of reaching the function")
+    if n_forwarders < 12:
+        raise AnalysisError(f"C18.1: only {n_forwarders} *args/**kwargs forwarders found in the package (confirmed: 22)")
+    # descriptor access of the asynchronous wrapper: through an instance -> bound form, through the class -> the wrapper itself
+    from ..kinds import NOVALUE as _NVG
+    from ..kinds import Abs as _Abs
+    from ..kinds import Scenario as _ScnG
+
+    get = prog.fn(f"{EW}.__get__")
+    gg = an.cfg(get)
+    dget = Deps(prog, get)
+    gp = get.param_names()
+    for label, inst in (("through an instance", _Abs("object", tag="instance")), ("through the class", None)):
+
+        def base_get(e: ast.AST, inst=inst):
+            if is_name(e, gp[1]):
+                return inst
+            if len(gp) > 2 and is_name(e, gp[2]):
+                return _Abs("type", "object", tag="owner")
+            return _NVG
+
+        sc_ = _ScnG(gg, dget, base_get)
+        live = [n for n in gg.nodes if n.kind == "return" and n.id in sc_.reach]
+        ob.inst(get, None, f"__get__ {label}: {len(live)} return(s)")
+        for r in live:
+            v = unwrap(r.ast.value)  # type: ignore[union-attr]
+            if inst is None and not is_name(v, gp[0]):
+                ob.fail(get, r.ast, "class-level access to an asynchronous method (Class.method(obj, ...)) does not return the wrapper itself: the receiver is bound to None and the call gets one argument too many")
+            if inst is not None and not (isinstance(v, ast.Call) and any(isinstance(x, ast.Attribute) and x.attr == "__method_call__" for x in ast.walk(v)) and any(is_name(x, gp[1]) for x in ast.walk(v))):
+                ob.fail(get, r.ast, "an asynchronous method accessed through an instance is not bound to that instance")
     for name, is_method in ((f"{EW}.__call__", False), (f"{EW}.__method_call__", True)):
         f = prog.fn(name)
         va, kwa = vararg_names(f)
@@ -420,6 +460,7 @@ def check(an: Analysis) -> None:
 
     # ------------------------------------------------------------------ C18.6 what the mimics copy
     ob = an.ob("C18.6", "table", "mimic_function and _mimic_async copy __name__, __qualname__, __doc__, __module__ and set __wrapped__ to the original on every normal path", ["utils.mimic.mimic_function", "helpers.asynchrony._mimic_async"])
+    ob7 = an.ob("C18.7", "K10", "copying the wrapped callable's __dict__ never replaces attributes the wrapper already has (stacked helper wrappers keep calling the callable they were given)", ["utils.mimic.mimic_function", "helpers.asynchrony._mimic_async"])
     for fq, src_name in (("utils.mimic.mimic_function.mimic", "function"), ("helpers.asynchrony._mimic_async", "function")):
         f = prog.fn(fq)
         g = an.cfg(f)
@@ -451,7 +492,8 @@ def check(an: Analysis) -> None:
             w = g.must_pass(lambda n: n in wr, exits=("exit-return",), skip_edge=normal_only)
             if w is not None:
                 ob.fail(f, wr[0].ast, "a normal path leaves the wrapper without __wrapped__", CFG.show_path(w))
-            upd = [n for n in g.nodes if n.kind == "call" and isinstance(n.ast.func, ast.Attribute) and n.ast.func.attr == "update" and "__dict__" in ast.unparse(n.ast.func.value)]  # type: ignore[union-attr]
+            upd = [n for n in g.nodes if n.kind == "call" and isinstance(n.ast.func, ast.Attribute) and n.ast.func.attr == "update" and "__dict__" in ast.unparse(n.ast.func.value)]  # type: ignore[union-attr]  (setdefault cannot overwrite)
+            upd += [n for n in g.nodes if n.kind == "stmt" and isinstance(n.ast, ast.Assign) and any(isinstance(t, ast.Subscript) and "__dict__" in ast.unparse(t.value) for t in n.ast.targets)]
             for u in upd:
                 w = g.search([wr[0]], lambda n, u=u: n is u, skip_edge=normal_only)
                 if w is not None:
@@ -459,6 +501,15 @@ def check(an: Analysis) -> None:
         for r in [r for r in f.own_nodes() if isinstance(r, ast.Return)]:
             if not is_name(unwrap(r.value), tgt):
                 ob.fail(f, r, "the mimic does not return the wrapper it was given")
+        # C18.7: the wrapper's own attributes survive the copy of the wrapped callable's __dict__
+        for n in f.own_nodes():
+            blind_update = isinstance(n, ast.Call) and isinstance(n.func, ast.Attribute) and n.func.attr == "update" and dotted(n.func.value) == f"{tgt}.__dict__"
+            blind_store = isinstance(n, ast.Assign) and any(isinstance(t, ast.Subscript) and dotted(t.value) == f"{tgt}.__dict__" for t in n.targets) and not any(isinstance(p_, ast.If) and any(isinstance(x, ast.Compare) and isinstance(x.ops[0], ast.NotIn) and f"{tgt}.__dict__" in ast.unparse(x.comparators[0]) for x in ast.walk(p_.test)) for p_ in _ancestors(n))
+            if blind_update or blind_store:
+                ob7.inst(f, n)
+                ob7.fail(f, n, "the wrapped callable's __dict__ is copied over the wrapper unconditionally: wrappers implemented as objects keep their own state (_function, _cached, _lock, _timeout ...) in __dict__ and the wrapped callable may be such a wrapper too - stacking e.g. cache(timeout(..)(f)) replaces the outer _function by f and the inner wrapper is bypassed")
+            elif isinstance(n, ast.Call) and isinstance(n.func, ast.Attribute) and n.func.attr == "setdefault" and dotted(n.func.value) == f"{tgt}.__dict__":
+                ob7.inst(f, n)
     mf = prog.fn("utils.mimic.mimic_function")
     gm = an.cfg(mf)
     inner = calls_to(an, mf, prog.fn("utils.mimic.mimic_function.mimic").qualname)
@@ -476,3 +527,9 @@ def _public_decorators(an: Analysis) -> list[str]:
     if not isinstance(allv, (ast.List, ast.Tuple)):
         raise AnalysisError("haiway.helpers.__all__ not found")
     return [e.value for e in allv.elts if isinstance(e, ast.Constant)]
+
+
+def _ancestors(n: ast.AST):
+    from ..loader import ancestors
+
+    return ancestors(n)
